@@ -93,3 +93,54 @@ func verifLemmaDescRoundTrip(d *indexBlockDesc, d2 *indexBlockDesc) (ok bool) {
 //@     invariant forall k int :: 0 <= k && k < len(b.data) ==> b.data[k] == old(b.data[k])
 //@     invariant forall k int :: 0 <= k && k < len(b.restarts) ==> b.restarts[k] == old(b.restarts[k])
 //@     invariant b.restarts == old(b.restarts) && b.data == old(b.data)
+
+// ---- blockWriter: representation invariant, preserved by append and by the reset branch of pop.
+// One restart offset per started section of 256 entries, offsets strictly increasing and
+// inside the data, an empty block has no data, no restarts and max 0, and the data stays
+// addressable by 16-bit offsets.
+//@ pure func bwInv(b *blockWriter) bool { return b.desc != nil && len(b.restarts) == (b.desc.entries + 255) / 256 && (b.desc.entries == 0 ==> len(b.data) == 0 && b.desc.max == 0) && (len(b.restarts) > 0 ==> b.restarts[len(b.restarts) - 1] < len(b.data)) && (forall k int :: 0 < k && k < len(b.restarts) ==> b.restarts[k - 1] < b.restarts[k]) && len(b.data) <= 65535 }
+
+//@ func (b *blockWriter) setBitmap(ext []uint16)
+//@   serves C19
+//@   trusted bit positions are bounded by the bitmap size chosen at construction (data invariant of the descriptor, not stated here); only the bitmap bytes are written
+//@   modifies b.desc.extBitmap[..]
+
+//@ func encodeIDs(ids []uint16) (enc []byte)
+//@   serves C19
+//@   trusted sorts its argument in place (slices.Sort) and returns a new buffer; the encoding itself is not modelled
+//@   modifies ids[..]
+//@   ensures len(enc) <= 3 * len(ids)
+
+//@ func (b *blockWriter) append(id uint64, ext []uint16) (err error)
+//@   serves C19
+//@   requires bwInv(b) && len(b.data) <= 32768 && len(ext) <= 8192 && b.desc.entries < 65535
+//@   requires noalias(ext, b.restarts)
+//@   modifies b.restarts, b.data, b.desc.entries, b.desc.max, b.desc.extBitmap[..], ext[..], typeof []byte, typeof []uint16
+//@   ensures err == nil ==> bwInv(b) && b.desc.entries == old(b.desc.entries) + 1 && b.desc.max == id && id > old(b.desc.max)
+//@   ensures err == nil ==> len(b.data) > old(len(b.data))
+//@   ensures err == nil ==> (forall k int :: 0 <= k && k < old(len(b.restarts)) ==> b.restarts[k] == old(b.restarts[k]))
+//@   mutates
+
+//@ func (b *blockWriter) sectionLast(section int) (n uint64, err error)
+//@   serves C19
+//@   trusted iterates with a closure (scanSection): outside the verified subset; reads only
+
+//@ func (b *blockWriter) sectionSearch(section int, n uint64) (found bool, prev uint64, pos int, err error)
+//@   serves C19
+//@   trusted iterates with a closure (scanSection): outside the verified subset; reads only. Assumed: a found position lies inside the data
+//@   ensures err == nil && found ==> 0 <= pos && pos <= len(b.data)
+
+//@ func (b *blockWriter) rebuildBitmap() (err error)
+//@   serves C19
+//@   trusted iterates with a closure (scanSection): outside the verified subset
+//@   modifies b.desc.extBitmap[..]
+
+// pop: removing the only entry resets the writer completely (nothing stale survives into the
+// next append); the other branches keep every index in range.
+//@ func (b *blockWriter) pop(id uint64) (err error)
+//@   serves C19
+//@   requires bwInv(b)
+//@   modifies b.restarts, b.data, b.desc.entries, b.desc.max, b.desc.extBitmap[..]
+//@   ensures err == nil && old(b.desc.entries) == 1 ==> bwInv(b) && b.desc.entries == 0
+//@   ensures err == nil ==> id == old(b.desc.max) && id != 0
+//@   mutates
